@@ -9,6 +9,7 @@ import (
 	"net/http/httptest"
 	"net/url"
 	"reflect"
+	"sync"
 	"unsafe"
 
 	"github.com/lidofinance/dc4bc/client/api/http_api"
@@ -22,7 +23,8 @@ import (
 // request binding + validation, DTO conversion and handlers are the production ones. Requests are
 // served in-process (the echo instance's ServeHTTP), so there is no port and no timing involved.
 type HTTPOp struct {
-	h http.Handler
+	mu sync.Mutex
+	h  http.Handler
 	// Calls counts requests per endpoint (evidence: which handlers the workload reached).
 	Calls map[string]int
 }
@@ -59,7 +61,9 @@ type APIError struct {
 func (e *APIError) Error() string { return fmt.Sprintf("api %d: %s", e.Status, e.Msg) }
 
 func (a *HTTPOp) do(method, path string, q url.Values, body []byte) (json.RawMessage, error) {
+	a.mu.Lock()
 	a.Calls[path]++
+	a.mu.Unlock()
 	target := path
 	if len(q) > 0 {
 		target += "?" + q.Encode()
@@ -148,12 +152,12 @@ func (a *HTTPOp) Reinit(payload []byte) error {
 }
 
 // Signatures returns batch -> message id -> entries as /getSignatures serves them.
-func (a *HTTPOp) Signatures(dkgID string) (map[string][]fsmtypes.ReconstructedSignature, error) {
+func (a *HTTPOp) Signatures(dkgID string) (map[string]map[string][]fsmtypes.ReconstructedSignature, error) {
 	res, err := a.do("GET", "/getSignatures", url.Values{"dkgID": {dkgID}}, nil)
 	if err != nil {
 		return nil, err
 	}
-	var out map[string][]fsmtypes.ReconstructedSignature
+	var out map[string]map[string][]fsmtypes.ReconstructedSignature
 	if err := json.Unmarshal(res, &out); err != nil {
 		return nil, fmt.Errorf("getSignatures result does not parse: %w", err)
 	}
